@@ -1,5 +1,5 @@
 """C06 — tweens start on time, end exactly on target, never jump (structural clauses)."""
-from ..paths import explore, describe, bool_label, pretty_place, describe_rv
+from ..paths import parse_term, explore, describe, bool_label, pretty_place, describe_rv
 from ..rules import calls_to, calls_where, order_ok, blocks_of
 from ..facts import callee_path
 
@@ -155,7 +155,8 @@ def finish(F, R):
         started = None
         fixed = None
         for bb, desc, lab in p.decisions:
-            if desc.startswith('Ge(') and '.time' in desc and 'as_secs_f64' in desc and 'duration' in desc:
+            _n, _a = parse_term(desc)
+            if _n == 'Le' and _a and len(_a) == 2 and 'as_secs_f64' in _a[0] and 'duration' in _a[0] and '.time' in _a[1]:   # time >= duration
                 ge = bool_label(lab)
             if desc.startswith('discr(') and 'target' in desc and lab in ('Fixed', 'FromModulator', 'FromListenerDistance'):
                 fixed = (lab == 'Fixed')
@@ -246,16 +247,16 @@ def timing_features(b):
     bins = []
     for bb, si, s in b.stmts():
         if s['k'] == 'assign' and s['rv']['k'] == 'bin':
-            d = describe_rv(b, s['rv'])
-            rb = describe(b, s['rv']['b'])
-            if (s['rv']['op'].startswith('Add') and rb == 'dt') or (s['rv']['op'] in ('Ge', 'Gt', 'Le', 'Lt', 'Eq', 'Ne') and 'as_secs_f64' in rb):
-                # normalise the place prefix of the tween state
-                import re
-                d = re.sub(r'\(\(\*[^)]*\)[^ ,)]*\)\.time|\(\*_?\w+\)\.time|\(\*\w+\)', 'TIME', d) if False else d
-                op = s['rv']['op']
-                kind = 'accumulate' if op.startswith('Add') else ('finish' if op in ('Ge', 'Gt', 'Le', 'Lt') else op)
-                rhs = 'dt' if describe(b, s['rv']['b']) == 'dt' else ('duration.as_secs_f64' if 'as_secs_f64' in describe(b, s['rv']['b']) else describe(b, s['rv']['b']))
-                bins.append((kind, op, rhs))
+            ra, rb = describe(b, s['rv']['a']), describe(b, s['rv']['b'])
+            op = s['rv']['op']
+            # operand order does not matter: `time += dt` / `dt + time`; `time >= d` / `d <= time`
+            if op.startswith('Add') and 'dt' in (ra, rb):
+                bins.append(('accumulate', 'Add', 'dt'))
+            elif op in ('Ge', 'Gt', 'Le', 'Lt', 'Eq', 'Ne') and ('as_secs_f64' in ra or 'as_secs_f64' in rb):
+                if 'as_secs_f64' in ra and 'as_secs_f64' not in rb:
+                    op = {'Le': 'Ge', 'Lt': 'Gt', 'Ge': 'Le', 'Gt': 'Lt'}.get(op, op)   # duration OP time  ->  time OP' duration
+                kind = 'finish' if op in ('Ge', 'Gt', 'Le', 'Lt') else op
+                bins.append((kind, op, 'duration.as_secs_f64'))
     f['arith'] = sorted(bins)
     # the Delayed arm subtracts from_secs_f64(dt)
     sub = [describe(b, t['args'][1]) for bb, t in b.calls() if (callee_path(t) or '') == 'std::time::Duration::saturating_sub']
@@ -288,7 +289,8 @@ def sib(F, R):
             continue
         ge = None
         for bb, desc, lab in p.decisions:
-            if desc.startswith('Ge(') and 'as_secs_f64' in desc:
+            _n, _a = parse_term(desc)
+            if _n == 'Le' and _a and len(_a) == 2 and 'as_secs_f64' in _a[0]:   # time >= duration
                 ge = bool_label(lab)
         st = [s for x in p.blocks for s in b.blocks[x]['stmts'] if s['k'] == 'assign' and pretty_place(b, s['lhs']) == '(*self).value']
         if ge is True:
